@@ -43,24 +43,21 @@ def e2eSamples (sep1 sep2 : String) (s : String) : Option (List (Nat × Nat)) :=
 
 /-- one element `side.dir.kb.<enc><comp>.n` against its result `got:eof:equal:samples`: complete, unchanged, end-of-stream, and the
     receive trace within burst + rate × span -/
-def e2eSmallOk (quic : Bool) (el res : String) : Option (String × Bool) :=
+def e2eSmallOk (el res : String) : Option (String × Bool) :=
   match el.splitOn ".", res.splitOn ":" with
   | [_, _, kb, ec, n], [got, eof, eq, samples] =>
     match kb.toNat?, n.toNat?, got.toNat?, e2eSamples "/" "." samples with
     | some kb, some n, some got, some ss =>
-      -- over quic a stream ends (n > 0, EOF) and limit.Reader hands those bytes (up to one burst) on without a token
-      -- (known finding C01-limit-reader-uncharged-tail, C01.reader_charged_witness): the faithful bound has them on top
-      let tail := if quic then kb * 1024 else 0
-      let bound := windowsOkFrom (e2eSmallRate kb) (kb * 1024) (e2eSmallSlack kb (ec.endsWith "1") + tail) (e2eIncrements 0 ss)
+      let bound := windowsOkFrom (e2eSmallRate kb) (kb * 1024) (e2eSmallSlack kb (ec.endsWith "1")) (e2eIncrements 0 ss)
       some (s!"{n}:1:1:{samples}", got == n && eof == "1" && eq == "1" && bound)
     | _, _, _, _ => none
   | _, _ => none
 
-def e2eSmallAll (quic : Bool) : List String → List String → Option (List String × Bool)
+def e2eSmallAll : List String → List String → Option (List String × Bool)
   | [], [] => some ([], true)
   | e :: es, r :: rs => do
-    let (m, ok) ← e2eSmallOk quic e r
-    let (ms, oks) ← e2eSmallAll quic es rs
+    let (m, ok) ← e2eSmallOk e r
+    let (ms, oks) ← e2eSmallAll es rs
     pure (m :: ms, ok && oks)
   | _, _ => none
 
@@ -189,8 +186,7 @@ def e2eStep (st : Unit) (tok : List String) (impl : String) : Unit × Verdict :=
     match stkKV rest "q" with
     | some q =>
       let els := q.splitOn ","
-      let quic := match stkKV rest "cfg" with | some c => c.endsWith "q" | none => false
-      match (stkRes impl "r").bind (fun r => e2eSmallAll quic els (r.splitOn "|")) with
+      match (stkRes impl "r").bind (fun r => e2eSmallAll els (r.splitOn "|")) with
       | some (ms, ok) => (st, verdictOf s!"r={"|".intercalate ms}" impl (some ok))
       | none => (st, verdictOf "r=?" impl (some false))
     | none => (st, .bad "sbw")
